@@ -9,14 +9,20 @@ open Sarpy Sarpy.Spec
       L <id> <shape>                      stored array (NumpyArraySegment / NumpyMemmapSegment), shape = n1,n2,... or - for 0-d
       R <id> <shape>                      the same storage behind a FileReadDataSegment
       O <rev> <perm> <tree>               reverse_axes / transpose_axes (rev = i,j,... or -)
-      C <iq> <rev> <perm> <bd> <tree>     ComplexFormatFunction order IQ (iq = 1) / QI (0), band axis bd (after transpose) collapsed
+      C <ord> <rev> <perm> <bd> <tree>    ComplexFormatFunction order IQ | QI | MP | PM (1 = IQ, 0 = QI), band axis bd (after transpose) collapsed
+      CK <ord> <rev> <perm> <bd> <tree>   the same with the band dimension kept
+      U1 <rev> <perm> <tree>              SingleLUTFormatFunction, 1-d table
+      U2 <m> <rev> <perm> <tree>          SingleLUTFormatFunction, 2-d table with m columns
       S <sq> <defs> <tree>                subset, sq = 1 (squeeze=True) | 0, defs = a/b/c;a/b/c;... (one normal slice per parent axis)
+      SR <sq> <rdefs> <rev> <perm> <tree> raw-basis subset of a parent with reverse_axes rev, transpose_axes perm over <tree> (its raw data)
       B <bd> <k> <tree>*k                 band aggregate (raw stack along bd)
-      K <shape> <k> (<arr> <tree>)*k      block aggregate (raw mosaic), arr = b0:b1,b0:b1,...
+      K <shape> <k> (<arr> <tree>)*k      block aggregate (raw mosaic), arr = b0:b1,b0:b1,...  (b0:b1r = definition slice(b1-1, b0-1, -1))
     subscript: a/b/c;a/b/c;...  (normalised: start int, stop int or N, step int)
   ops:  shape -> formatted shape ;  full -> shape | elements ;  read -> shape | elements ;
-        write -> chunk shape | <leaf id>:<flat raw offset>=<flat position in the chunk> ... (the assignments, in the order performed)
-  element: F (fill), <leaf id>:<flat raw offset>, or C(<re>,<im>) for a complex pair;   `refused` when the tree or the subscript is not well-formed
+        write -> chunk shape | <leaf id>:<flat raw offset>=<flat position in the chunk>[.<part>] ... (the assignments, in the order performed;
+                 part 0 real, 1 imaginary, 2 magnitude, 3 phase of the chunk element)
+  element: F (fill), <leaf id>:<flat raw offset>, C(<re>,<im>) for a complex pair, P(<mag>,<phase>), T<c>(<x>) for column c of the table row x;
+  `refused` when the tree or the subscript is not well-formed, or the code refuses the subscript (Seg.accepts)
 -/
 
 def parseNats (s : String) : Option (List Nat) :=
@@ -32,11 +38,23 @@ def parseNSlice (s : String) : Option NSlice :=
 def parseSub (s : String) : Option (List NSlice) :=
   if s == "-" then some [] else (s.splitOn ";").mapM parseNSlice
 
-def parseBox (s : String) : Option (List (Int × Int)) :=
-  if s == "-" then some [] else
-  (s.splitOn ",").mapM (fun t => match t.splitOn ":" with
-    | [a, b] => do let a ← a.toInt?; let b ← b.toInt?; pure (a, b)
+def parseBox (s : String) : Option (List (Int × Int) × List Bool) :=
+  if s == "-" then some ([], []) else do
+  let l ← (s.splitOn ",").mapM (fun t =>
+    let r := t.endsWith "r"
+    let t := if r then (t.dropRight 1) else t
+    match t.splitOn ":" with
+    | [a, b] => do let a ← a.toInt?; let b ← b.toInt?; pure ((a, b), r)
     | _ => none)
+  pure (l.map Prod.fst, l.map Prod.snd)
+
+def parseOrd (s : String) : Option COrd :=
+  match s with
+  | "IQ" => some .IQ | "1" => some .IQ
+  | "QI" => some .QI | "0" => some .QI
+  | "MP" => some .MP
+  | "PM" => some .PM
+  | _ => none
 
 mutual
 partial def parseSeg : List String → Option (Seg × List String)
@@ -50,10 +68,30 @@ partial def parseSeg : List String → Option (Seg × List String)
     let rev ← parseNats rev; let perm ← parseNats perm
     let (p, rest) ← parseSeg rest
     pure (.orient rev perm p, rest)
-  | "C" :: iq :: rev :: perm :: bd :: rest => do
+  | "C" :: ord :: rev :: perm :: bd :: rest => do
+    let ord ← parseOrd ord
     let rev ← parseNats rev; let perm ← parseNats perm; let bd ← bd.toNat?
     let (p, rest) ← parseSeg rest
-    pure (.cplx (iq == "1") rev perm bd p, rest)
+    pure (.cplx ord rev perm bd p, rest)
+  | "CK" :: ord :: rev :: perm :: bd :: rest => do
+    let ord ← parseOrd ord
+    let rev ← parseNats rev; let perm ← parseNats perm; let bd ← bd.toNat?
+    let (p, rest) ← parseSeg rest
+    pure (.cplxK ord rev perm bd p, rest)
+  | "U1" :: rev :: perm :: rest => do
+    let rev ← parseNats rev; let perm ← parseNats perm
+    let (p, rest) ← parseSeg rest
+    pure (.lut1 rev perm p, rest)
+  | "U2" :: m :: rev :: perm :: rest => do
+    let m ← m.toNat?
+    let rev ← parseNats rev; let perm ← parseNats perm
+    let (p, rest) ← parseSeg rest
+    pure (.lut2 m rev perm p, rest)
+  | "SR" :: sq :: defs :: rev :: perm :: rest => do
+    let defs ← parseSub defs
+    let rev ← parseNats rev; let perm ← parseNats perm
+    let (p, rest) ← parseSeg rest
+    pure (.subsetR (sq == "1") defs rev perm p, rest)
   | "S" :: sq :: defs :: rest => do
     let defs ← parseSub defs
     let (p, rest) ← parseSeg rest
@@ -76,10 +114,10 @@ partial def parseSegs : Nat → List String → Option (Segs × List String)
 partial def parseBlks : Nat → List String → Option (Blks × List String)
   | 0, rest => some (.nil, rest)
   | k + 1, arr :: rest => do
-    let arr ← parseBox arr
+    let (arr, rv) ← parseBox arr
     let (c, rest) ← parseSeg rest
     let (r, rest) ← parseBlks k rest
-    pure (.cons arr c r, rest)
+    if rv.any id then pure (.rcons arr rv c r, rest) else pure (.cons arr c r, rest)
   | _, _ => none
 end
 
@@ -90,6 +128,12 @@ def showSrc (leaves : List (Nat × List Nat)) : Src → String
     | some (_, shape) => s!"{id}:{flatOff shape idx}"
     | none => s!"{id}:?"
   | .pair a b => "C(" ++ showSrc leaves a ++ "," ++ showSrc leaves b ++ ")"
+  | .polar a b => "P(" ++ showSrc leaves a ++ "," ++ showSrc leaves b ++ ")"
+  | .lut c a => s!"T{c}(" ++ showSrc leaves a ++ ")"
+
+def showWSrc (cnt : List Nat) : WSrc → String
+  | .elem idx => toString (flatOff cnt idx)
+  | .part k x => showWSrc cnt x ++ "." ++ toString k
 
 def showShape (l : List Nat) : String := if l.isEmpty then "-" else ",".intercalate (l.map toString)
 
@@ -111,19 +155,20 @@ def segStep (toks : List String) : Option String :=
     match rest with
     | [sub] =>
       let ts ← parseSub sub
-      if !t.wf || !allSlicesNormal t.fshape ts then pure "refused" else pure (showArr t.leaves (t.readSrc ts))
+      if !t.wf || !allSlicesNormal t.fshape ts || !t.accepts ts then pure "refused"
+      else pure (showArr t.leaves (t.readSrc ts))
     | _ => none
   | "write" :: rest => do
     let (t, rest) ← parseSeg rest
     match rest with
     | [sub] =>
       let ts ← parseSub sub
-      if !t.wf || !allSlicesNormal t.fshape ts then pure "refused" else
+      if !t.wf || !allSlicesNormal t.fshape ts || !t.accepts ts then pure "refused" else
       let cnt := ts.map NSlice.count
-      let asg := t.write ts (idChunk ts)
-      let one (a : Nat × List Int × List Int) : String :=
+      let asg := t.write ts (idChunkW ts)
+      let one (a : Nat × List Int × WSrc) : String :=
         match t.leaves.find? (fun p => p.1 == a.1) with
-        | some (_, shape) => s!"{a.1}:{flatOff shape a.2.1}={flatOff cnt a.2.2}"
+        | some (_, shape) => s!"{a.1}:{flatOff shape a.2.1}={showWSrc cnt a.2.2}"
         | none => s!"{a.1}:?"
       pure (showShape cnt ++ " | " ++ " ".intercalate (asg.map one))
     | _ => none
